@@ -75,39 +75,22 @@ def rule_mode_agreement(ctx: Ctx, out: Collector) -> None:
             out.ok('FS-1', cons, p.loc(dump, dump.node), f'dump writes {kind}' + (f', declared {declared}' if declared else ''))
         else:
             out.bad('FS-1', cons, p.loc(dump, dump.node), '; '.join(problems) + ': the store opens the file in the wrong mode for this format')
-    # the store: mode handed to each serializer
-    for mname, want_write in (('save', True), ('load', False)):
+    # the store: the mode each serializer's file is opened with - decided in the file-system worlds, where a dump / load on a file
+    # of the other kind raises TypeError as the real primitives do (whatever helpers compute the mode)
+    from .fw import decide_laws
+    laws, counts, keys_, fmts = decide_laws(ctx)
+    mismatches = sorted({x for law in ('round trip', 'failed save', 'write once') for x in laws[law] if 'TypeError' in x})
+    for mname in ('save', 'load'):
         m = st.methods.get(mname)
         if m is None:
             raise AnalysisError(f'FileSystemArtifactStore.{mname} not found')
-        opens = [n for n in ast.walk(m.node) if isinstance(n, ast.Call) and isinstance(n.func, ast.Attribute) and n.func.attr == 'open']
-        if not opens:
-            raise AnalysisError(f'{m.fid}: no open() found (FS-1 anchor vanished)')
         cons = f'{m.module.name}::{m.qualname}::open mode follows the serializer\'s stream kind'
-        problems = []
-        for op in opens:
-            mode = op.args[0] if op.args else next((k.value for k in op.keywords if k.arg == 'mode'), None)
-            modes = _mode_values(m, mode)
-            if modes is None:
-                modes = _mode_by_interpretation(ctx, m, mode)
-            if modes is None:
-                problems.append(f'mode {unparse(mode) if mode is not None else "<default>"} cannot be resolved')
-                continue
-            for kind in set(kinds.values()):
-                got = modes.get(kind)
-                if got is None:
-                    problems.append(f'no mode for {kind} serializers')
-                    continue
-                is_b = 'b' in got
-                if (kind == 'binary') != is_b:
-                    users = [n_ for n_, k_ in kinds.items() if k_ == kind]
-                    problems.append(f'{users} ({kind}) get a file opened with mode {got!r}')
-                if want_write and not any(c in got for c in 'wxa'):
-                    problems.append(f'save opens with {got!r}')
-        if not problems:
-            out.ok('FS-1', cons, p.loc(m, opens[0]), f'{unparse(opens[0])[:80]}')
+        mine = [x for x in mismatches if (mname == 'save') == ('load gives' not in x)]
+        if not mismatches:
+            out.ok('FS-1', cons, p.loc(m, m.node), f'save / load of every format ({", ".join(fmts)}) opens its file in the kind the serializer '
+                   f'needs: {counts["round trip"]} round trips in the file-system worlds, no TypeError')
         else:
-            out.bad('FS-1', cons, p.loc(m, opens[0]), f'FileSystemArtifactStore.{mname}: ' + '; '.join(sorted(set(problems)))
+            out.bad('FS-1', cons, p.loc(m, m.node), f'FileSystemArtifactStore.{mname}: ' + '; '.join((mine or mismatches)[:3])
                     + ': dump/load raises TypeError for that format')
 
 
